@@ -13,13 +13,22 @@ open StunVerif
     is refused), body tiled exactly by padded TLVs, ordering rule on integrity/fingerprint
     attributes, and a FINGERPRINT (if present) matching the bytes before it. -/
 theorem parse_iff (b : Bytes) : (∃ m, msgFromBytes b = .ok m) ↔ Spec.WellFormed b := by
-  sorry
+  constructor
+  · rintro ⟨m, h⟩
+    obtain ⟨_, h20, ht, hc, hl, hw⟩ := (msgFromBytes_ok_iff b m).mp h
+    exact walk_wellFormed b h20 ht hc hl hw
+  · rintro ⟨ts, hw⟩
+    have hwalk := wellFormedAs_walk b ts hw
+    obtain ⟨h20, ht, hc, hl, _⟩ := hw
+    exact ⟨⟨b⟩, (msgFromBytes_ok_iff b ⟨b⟩).mpr ⟨rfl, h20, ht, hc, hl, hwalk⟩⟩
 
 /-- the attribute records of a well-formed buffer are unique: "the ordered attribute sequence
     encoded in the buffer" is well defined -/
 theorem split_unique (b : Bytes) (ts ts' : List Spec.Tlv)
     (h : Spec.WellFormedAs b ts) (h' : Spec.WellFormedAs b ts') : ts = ts' := by
-  sorry
+  obtain ⟨_, _, _, _, hwf, htile, _, _⟩ := h
+  obtain ⟨_, _, _, _, hwf', htile', _, _⟩ := h'
+  exact tile_unique ts ts' hwf hwf' (by rw [← htile, ← htile'])
 
 /-- On acceptance the message is the buffer; class/method bits, transaction id and the ordered
     attribute sequence (types and value bytes) are exactly those encoded in the buffer, and what
@@ -28,7 +37,11 @@ theorem parse_faithful (b : Bytes) (m : Msg) (ts : List Spec.Tlv)
     (h : msgFromBytes b = .ok m) (hw : Spec.WellFormedAs b ts) :
     m.data = b ∧ m.typeField = beNat (b.take 2) ∧ m.tid = beNat ((b.drop 8).take 12) ∧
     m.allAttrs = ts.map Spec.Tlv.raw ∧ m.iter = Spec.exposed (ts.map Spec.Tlv.raw) := by
-  sorry
+  obtain ⟨rfl, _⟩ := (msgFromBytes_ok_iff b m).mp h
+  have ha : (⟨b⟩ : Msg).allAttrs = ts.map Spec.Tlv.raw := wellFormedAs_allAttrs b ts hw
+  refine ⟨rfl, rfl, rfl, ha, ?_⟩
+  rw [← ha]
+  exact iterGo_eq_exposed _ _
 
 /-- lookups return the first exposed match -/
 theorem lookup_first (m : Msg) (t : Nat) :
@@ -37,18 +50,44 @@ theorem lookup_first (m : Msg) (t : Nat) :
 
 /-- the parser never panics and never runs out of fuel, whatever the bytes (C01 for this entry point) -/
 theorem parse_total (b : Bytes) : ∀ f, msgFromBytes b ≠ .error (.fault f) := by
-  sorry
+  intro f h
+  rcases msgFromBytes_err b _ h with h' | h'
+  · cases h'
+  · exact walkErr_not_fault f h'
 
 /-- causes: fewer than 20 bytes -/
 theorem cause_short (b : Bytes) (h : b.length < 20) :
     msgFromBytes b = .error (.truncated 20 b.length) := by
-  sorry
+  unfold msgFromBytes
+  rw [header_short b h]
+  rfl
 
 /-- causes: not STUN exactly when the type's top bits are set or the cookie is wrong -/
 theorem cause_not_stun (b : Bytes) (h : 20 ≤ b.length) :
     msgFromBytes b = .error .notStun ↔
       (0x4000 ≤ beNat (b.take 2) ∨ (b.drop 4).take 4 ≠ [0x21, 0x12, 0xA4, 0x42]) := by
-  sorry
+  rw [msgFromBytes_unfold b h]
+  constructor
+  · intro hh
+    split at hh
+    · rename_i h1; exact Or.inl h1
+    · split at hh
+      · rename_i h2; exact Or.inr h2
+      · split at hh
+        · cases hh
+        · split at hh
+          · cases hh
+          · cases hw : walk b.length b (b.drop 20) 20 [] with
+            | error e =>
+              rw [hw] at hh
+              simp only [Except.map] at hh
+              injection hh with hh; subst hh
+              exact absurd (walk_err_class b _ _ _ _ _ (by rw [List.length_drop]; omega) hw)
+                walkErr_not_notStun
+            | ok u => rw [hw] at hh; cases hh
+  · rintro (h1 | h2)
+    · rw [if_pos h1]
+    · rw [if_pos h2]; split <;> rfl
 
 /-- causes: a STUN header whose declared length exceeds the buffer is truncated with the byte
     counts; one whose declared length is smaller is refused as too large (excess bytes are never
@@ -59,7 +98,10 @@ theorem cause_length (b : Bytes) (h : 20 ≤ b.length) (ht : beNat (b.take 2) < 
       msgFromBytes b = .error (.truncated (beNat ((b.drop 2).take 2) + 20) b.length)) ∧
     (beNat ((b.drop 2).take 2) + 20 < b.length →
       msgFromBytes b = .error (.tooLarge (beNat ((b.drop 2).take 2) + 20) b.length)) := by
-  sorry
+  rw [msgFromBytes_unfold b h, if_neg (by omega), if_neg (by simp [hc])]
+  constructor
+  · intro hl; rw [if_pos hl]
+  · intro hl; rw [if_neg (by omega), if_pos hl]
 
 /-- causes are truthful: "attribute after fingerprint / integrity" names the type of an attribute
     that really follows a FINGERPRINT / an integrity attribute in the body -/
@@ -71,7 +113,24 @@ theorem cause_after (b : Bytes) (t : Nat) :
       ∃ pre : List Spec.Tlv, ∃ rest : Bytes, (∀ u ∈ pre, u.wf) ∧
         b.drop 20 = pre.flatMap Spec.Tlv.enc ++ enc16 t ++ rest ∧
         (tyMI ∈ pre.map (·.ty) ∨ tyMI256 ∈ pre.map (·.ty))) := by
-  sorry
+  constructor
+  · intro h
+    have hw := msgFromBytes_after b _ t h (Or.inl rfl)
+    obtain ⟨post, rest, hwf, hd, h1, _⟩ :=
+      walk_after b t _ _ _ _ _ (by simp) hw (Or.inl rfl)
+    refine ⟨post, rest, hwf, hd, ?_⟩
+    rcases h1 rfl with h1 | h1
+    · cases h1
+    · exact h1
+  · intro h
+    have hw := msgFromBytes_after b _ t h (Or.inr rfl)
+    obtain ⟨post, rest, hwf, hd, _, h2⟩ :=
+      walk_after b t _ _ _ _ _ (by simp) hw (Or.inr rfl)
+    refine ⟨post, rest, hwf, hd, ?_⟩
+    rcases h2 rfl with (h2 | h2) | h2
+    · cases h2
+    · cases h2
+    · exact h2
 
 /-! Non-vacuity -/
 def sample : Bytes :=
